@@ -861,3 +861,140 @@ Definition parse_text (dbg : bool) (text : string) : pres sys :=
 
 Definition parse_text_raw (dbg : bool) (text : string) : pres (sys * list (expr * string)) :=
   parse_raw dbg (map tokenize (split_lines text)).
+
+(** ** classes of inputs named in the theorem statements (Props/C18.v) *)
+(** a [sort bitvec 0] line: the only way a zero width enters the sort table *)
+Definition zero_sort_line (toks : list string) : bool :=
+  seq (tokn toks 1) "sort" && seq (tokn toks 2) "bitvec" &&
+  match parse_width (tokn toks 3) with Some 0 => true | _ => false end.
+
+(** ** [line_pre]: the explicit precondition under which a line cannot make the reader panic.
+    It is what a repaired reader would check *before* calling the expression builders:
+    operand kinds (bit-vector / array), equal operand widths, ordered slice bounds, result
+    widths below 2^32, a value token on constant lines, no zero-width sort in use, and (for
+    constants wider than 128 bits) a digit string baa's wide reader can take.  Operands that
+    cannot be resolved at all are not mentioned: such a line is reported as an error.
+    [KnownClass] (Props/C18.v) is the set of inputs on which some line violates [line_pre]
+    in the state in which it is processed. *)
+Definition opnd (st : pstate) (tok : string) : option expr :=
+  match parse_line_id tok with
+  | Some (id, _) => PM.find (key id) (p_signals st)
+  | None => None
+  end.
+
+Definition opnd_neg (tok : string) : bool :=
+  match parse_line_id tok with Some (_, neg) => neg | None => false end.
+
+(** a negated operand id must refer to a bit-vector *)
+Definition neg_ok (st : pstate) (tok : string) : bool :=
+  match opnd st tok with
+  | Some e => negb (opnd_neg tok) || is_bv_ty (type_of e)
+  | None => true
+  end.
+
+Definition opnd_ty (st : pstate) (tok : string) : option ty := option_map type_of (opnd st tok).
+
+Definition sort_of (st : pstate) (tok : string) : option ty :=
+  match parse_line_id tok with
+  | Some (id, false) => PM.find (key id) (p_types st)
+  | _ => None
+  end.
+
+Fixpoint no_cont_bytes (s : string) : bool :=
+  match s with EmptyString => true | String c s' => negb (is_cont_byte c) && no_cont_bytes s' end.
+
+Definition lit_body (tok : string) : string :=
+  match tok with String c r => if Ascii.eqb c "-" then r else tok | EmptyString => tok end.
+
+Definition lit_safe (radix w : N) (tok : string) : bool :=
+  negb (w =? 0) &&
+  ((w <=? 128) || (radix =? 2) ||
+   (if radix =? 16 then slen (strip_plus (lit_body tok)) <=? 16 * ((w + 63) / 64)
+    else no_cont_bytes tok)).
+
+Definition unary_pre (u : unop) (t : ty) (toks : list string) : bool :=
+  match t with
+  | TArr _ _ => false
+  | TBV w =>
+      match u with
+      | UNot | UNeg | UUnsup => true
+      | URedand | URedor | URedxor => negb (w =? 0)
+      | USlice =>
+          match parse_width (tokn toks 4), parse_width (tokn toks 5) with
+          | Some hi, Some lo => (lo <=? hi) && (hi <? U32MAX)
+          | _, _ => true
+          end
+      | UUext | USext =>
+          match parse_width (tokn toks 4) with
+          | Some by_ => w + by_ <=? U32MAX
+          | None => true
+          end
+      end
+  end.
+
+Definition binary_pre (bo : binop) (ta tb : ty) : bool :=
+  match bo with
+  | BSame _ _ _ | BCmp _ _ =>
+      match ta, tb with TBV wa, TBV wb => wa =? wb | _, _ => false end
+  | BEq _ => ty_eqb ta tb
+  | BIff | BUnsup => true
+  | BImplies => ty_eqb ta (TBV 1) && ty_eqb tb (TBV 1)
+  | BConcat => match ta, tb with TBV wa, TBV wb => wa + wb <=? U32MAX | _, _ => false end
+  | BRead => negb (is_bv_ty ta)
+  end.
+
+Definition line_pre (st : pstate) (toks : list string) : bool :=
+  let op := tokn toks 1 in
+  let oty k := opnd_ty st (tokn toks k) in
+  let nk k := neg_ok st (tokn toks k) in
+  match un_table op with
+  | Some u => nk 3%nat && match oty 3%nat with Some t => unary_pre u t toks | None => true end
+  | None =>
+  match bin_table op with
+  | Some bo =>
+      nk 3%nat && nk 4%nat &&
+      match oty 3%nat, oty 4%nat with Some ta, Some tb => binary_pre bo ta tb | _, _ => true end
+  | None =>
+      if seq op "ite" then
+        nk 3%nat && nk 4%nat && nk 5%nat &&
+        match oty 3%nat, oty 4%nat, oty 5%nat with
+        | Some tc, Some t1, Some t2 => ty_eqb tc (TBV 1) && ty_eqb t1 t2
+        | _, _, _ => true
+        end
+      else if seq op "write" then nk 3%nat && nk 4%nat && nk 5%nat
+      else if seq op "sort" then
+        (if seq (tokn toks 2) "array" then
+           match sort_of st (tokn toks 3), sort_of st (tokn toks 4) with
+           | Some it, Some dt => is_bv_ty it && is_bv_ty dt
+           | _, _ => true
+           end
+         else true)
+      else if seq op "const" || seq op "constd" || seq op "consth" then
+        match sort_of st (tokn toks 2) with
+        | Some (TBV w) =>
+            Nat.leb 4 (List.length toks) &&
+            lit_safe (if seq op "const" then 2 else if seq op "constd" then 10 else 16) w (tokn toks 3)
+        | _ => true
+        end
+      else if seq op "zero" || seq op "one" || seq op "ones" then
+        match sort_of st (tokn toks 2) with Some (TBV w) => negb (w =? 0) | _ => true end
+      else if seq op "state" || seq op "input" then
+        match sort_of st (tokn toks 2) with Some (TBV w) => negb (w =? 0) | _ => true end
+      else if seq op "init" || seq op "next" then nk 4%nat
+      else if seq op "output" || seq op "bad" || seq op "constraint" then nk 2%nat
+      else true
+  end
+  end.
+
+(** every line satisfies [line_pre] in the state in which the (debug-build) reader processes it *)
+Fixpoint pre_all (ls : list (list string)) (st : pstate) : bool :=
+  match ls with
+  | [] => true
+  | l :: ls' =>
+      line_pre st l &&
+      match parse_line true st l with
+      | POk st' => pre_all ls' st'
+      | PErr => pre_all ls' st
+      | PPanic _ => true
+      end
+  end.
